@@ -529,8 +529,9 @@ pub trait MapValidBasic<T: IsNone>: TrustedLen<Item = T> + Sized {
                             if last_value == Some(v.clone()) {
                                 None
                             } else {
-                                last_value = Some(v);
-                                Some(i)
+                                // `i` ends a run only if the previous element is valid;
+                                // after a null there is no run to close
+                                last_value.replace(v).map(|_| i)
                             }
                         } else {
                             let out = if last_value.is_some() { Some(i) } else { None };
